@@ -1,5 +1,145 @@
-(* C19 — property theorems (placeholder until the model is built). *)
+(* C19 — RPM package identity, digests and signature issuer are reported as stored.
+   Only statements; proofs are in Proofs/Rpm.v.
+
+   Model/Rpm.v: [read_package_file] is go-rpm v1.0.1's ReadPackageFile re-modelled at byte level;
+   [packet_read other] is packet.Read (signature packets byte by byte, every other packet type
+   answered by [other]); [describe other] is file.RPMFile as it is now; [describe_gen c] the
+   variants before the repairs; [encode] lays a package description [pkg] out canonically
+   (lead, signature header with region entry, padding, main header, payload) and [pkg_ok] says
+   when a description is well formed: lead version 3 or 4, strings without NUL, a non-empty MD5,
+   signature packets with a supported algorithm and hash, 64-bit issuer, MPIs below 8 KiB,
+   header stores within go-rpm's 32 MiB limit, and enough payload to cover the header padding. *)
 From WI Require Import Lib.Base Lib.Info Model.Rpm Proofs.Rpm.
-Theorem C19_placeholder : True.
-Proof. exact I. Qed.
-Print Assumptions C19_placeholder.
+Open Scope N_scope.
+
+(* go-rpm returns, for the canonical layout of every well-formed package, exactly the lead
+   version and the two headers' index entries (tag, type, offset, count, typed value) laid out *)
+Theorem C19_roundtrip : forall p, pkg_ok p = true -> read_package_file (encode p) = Ok (view p).
+Proof. exact parse_encode. Qed.
+Print Assumptions C19_roundtrip.
+
+(* packet.Read on a v3 or v4 signature packet returns the stored algorithm, hash and 64-bit issuer *)
+Theorem C19_sig_roundtrip : forall other s, sig_ok s = true ->
+  packet_read other (encode_sig s) =
+  Ok (if sp_v3 s then PSig3 (sp_algo s) (sp_hash s) (sp_issuer s)
+      else PSig4 (sp_sigtype s) (sp_algo s) (sp_hash s) (Some (sp_issuer s))).
+Proof. exact packet_read_encode. Qed.
+Print Assumptions C19_sig_roundtrip.
+
+(* the report of a well-formed package is exactly [report p] (Model/Rpm.v, written from the
+   property): "RPM (version V)"; Name, Version, Release, Architecture as stored; MD5 (lower-case
+   hex of the stored bytes), SHA-1 and SHA-256 header digests as stored, each iff present; per
+   signature tag, in the order DSA, RSA, GPG, PGP, an entry with Algorithm = <public-key
+   algorithm>/<hash algorithm> and Key id = the 16 hex digits of the stored issuer;
+   "Signature: none" iff there is no such entry — whatever the other packet parsers do *)
+Theorem C19_faithful : forall other p, pkg_ok p = true -> describe other (encode p) = Ok (report p).
+Proof. exact describe_encode. Qed.
+Print Assumptions C19_faithful.
+
+(* the issuer is printed with all 16 hex digits and reads back as the stored 64-bit key ID *)
+Theorem C19_keyid : forall k, k < 2 ^ 64 -> length (fmt_keyid k) = 16%nat /\ of_hex (fmt_keyid k) = k.
+Proof. exact keyid_format. Qed.
+Print Assumptions C19_keyid.
+
+Theorem C19_keyid_digits : forall k, forallb is_upper_hex (fmt_keyid k) = true.
+Proof. exact keyid_digits. Qed.
+Print Assumptions C19_keyid_digits.
+
+(* F23: the "%X" of the unrepaired code drops leading zero nibbles (k = 0x0123456789ABCDEF) *)
+Theorem C19_keyid_refuted : exists k, k < 2 ^ 64 /\ length (fmt_keyid_raw k) <> 16%nat.
+Proof. exact keyid_raw_refuted. Qed.
+Print Assumptions C19_keyid_refuted.
+
+(* a well-formed package is reported as unsigned iff none of the four signature tags is stored,
+   and then (and only then) it has no signature entries *)
+Theorem C19_unsigned : forall other p, pkg_ok p = true ->
+  exists i, describe other (encode p) = Ok i /\
+    (In (bs "Signature", bs "none") (i_attrs i)
+       <-> (k_dsa p = None /\ k_rsa p = None /\ k_gpg p = None /\ k_pgp p = None)) /\
+    (i_children i = [] <-> (k_dsa p = None /\ k_rsa p = None /\ k_gpg p = None /\ k_pgp p = None)).
+Proof. exact unsigned_wellformed. Qed.
+Print Assumptions C19_unsigned.
+
+(* for EVERY file that is described at all: "Signature: none" iff no signature entry is listed *)
+Theorem C19_unsigned_any : forall other data i, describe other data = Ok i ->
+  (In (bs "Signature", bs "none") (i_attrs i) <-> i_children i = []).
+Proof. exact unsigned_iff_no_children. Qed.
+Print Assumptions C19_unsigned_any.
+
+(* no failure of the program: for ANY bytes — any index types, counts, offsets, any signature
+   packet — RPMFile returns a description or an error, provided the parsers of the other
+   OpenPGP packet types (outside this property) do not panic *)
+Theorem C19_no_failure : forall other data,
+  (forall b s, other b <> Panic s) -> forall s, describe other data <> Panic s.
+Proof.
+  intros other data Ho. apply np_not_panic. apply describe_no_panic.
+  intros b. unfold np. specialize (Ho b). destruct (other b); try reflexivity. exfalso. eapply Ho. reflexivity.
+Qed.
+Print Assumptions C19_no_failure.
+
+(* the repair of F25/F36: once rpmCheckIndex has accepted a file, go-rpm's parser — with its
+   out-of-range string loop — cannot panic on it *)
+Theorem C19_checked_index_safe : forall data,
+  check_index data = Ok tt -> forall s, read_package_file data <> Panic s.
+Proof. intros data H. apply np_not_panic. apply check_index_safe. exact H. Qed.
+Print Assumptions C19_checked_index_safe.
+
+(* and rpmCheckIndex rejects no well-formed package *)
+Theorem C19_checked_index_complete : forall p, pkg_ok p = true -> check_index (encode p) = Ok tt.
+Proof. exact check_index_encode. Qed.
+Print Assumptions C19_checked_index_complete.
+
+(* the fuel of the signature parser (termination of the subpacket loops) is never exhausted *)
+Theorem C19_fuel : forall content, parse_sig4 (length content) content <> Err "fuel".
+Proof. exact parse_sig4_fuel. Qed.
+Print Assumptions C19_fuel.
+
+(* likewise the fuel of the partial-body-length reader: from [length r] units on, the result
+   does not depend on the fuel (packet_read supplies exactly [length r]) *)
+Theorem C19_fuel_partial : forall f1 f2 chunk r,
+  (length r <= f1)%nat -> (length r <= f2)%nat -> partial_body f1 chunk r = partial_body f2 chunk r.
+Proof. exact partial_body_fuel. Qed.
+Print Assumptions C19_fuel_partial.
+
+(* the unrepaired code refutes C19_no_failure: F24 (NAME of type INT32; string entry of count 0)
+   and F36 (string array running past the store); the repaired code describes / rejects them *)
+Theorem C19_no_failure_refuted_F24 :
+  is_panic (describe_gen cfg_original no_other w_f24) = true /\
+  is_panic (describe_gen cfg_original no_other w_f24b) = true.
+Proof. exact f24_refuted. Qed.
+Print Assumptions C19_no_failure_refuted_F24.
+
+Theorem C19_no_failure_refuted_F36 :
+  is_panic (describe_gen (mkcfg true true true false true) no_other w_f36) = true.
+Proof. exact f36_refuted. Qed.
+Print Assumptions C19_no_failure_refuted_F36.
+
+(* F32: before the repair ECDSA / EdDSA signatures were named without their hash *)
+Theorem C19_faithful_refuted_F32 :
+  algo_name cfg_original 19 8 = bs "ECDSA" /\ algo_name cfg_original 22 10 = bs "EdDSA" /\
+  algo_name cfg_now 19 8 = bs "ECDSA/SHA-256" /\ algo_name cfg_now 22 10 = bs "EdDSA/SHA-512".
+Proof. exact f32_refuted. Qed.
+Print Assumptions C19_faithful_refuted_F32.
+
+(* F37: before the repair a signature header without region entry was not looked at: stored
+   signatures unreported and no "Signature: none" either *)
+Theorem C19_unsigned_refuted_F37 : exists i,
+  describe_gen (mkcfg true true true true false) no_other w_f37 = Ok i /\
+  i_children i = [] /\ ~ In (bs "Signature", bs "none") (i_attrs i).
+Proof. exact f37_refuted. Qed.
+Print Assumptions C19_unsigned_refuted_F37.
+
+(* non-vacuity: a package with an MD5, a SHA-1, a v4 RSA/SHA-256 signature whose issuer has a
+   leading zero nibble and a v3 DSA/SHA-1 legacy signature is well formed, and its report *)
+Example C19_example_ok : pkg_ok ex_pkg = true.
+Proof. exact ex_pkg_ok. Qed.
+
+Example C19_example_report :
+  describe no_other (encode ex_pkg) =
+  Ok (Info (bs "RPM (version 4.14.3)")
+        [(bs "Name", bs "dummy"); (bs "Version", bs "0.0.1"); (bs "Release", bs "1"); (bs "Architecture", bs "noarch");
+         (bs "MD5", bs "0102030405060708090a0b0c0d0e0f10");
+         (bs "SHA-1", bs "0123456789abcdef0123456789abcdef01234567")]
+        [Info (bs "Signature") [(bs "Algorithm", bs "RSA/SHA-256"); (bs "Key id", bs "0123456789ABCDEF")] [];
+         Info (bs "Legacy signature (RPM v3)") [(bs "Algorithm", bs "DSA/SHA-1"); (bs "Key id", bs "00000000000000CF")] []]).
+Proof. exact ex_pkg_report. Qed.
